@@ -4,6 +4,7 @@ from ..rules import cache_rules as CA
 from ..rules import shape_rules as S
 from ..rules import sibling_rules as SI
 from ..rules import proj_rules as PR
+from ..rules import dtype_rules as DT
 from ..rules.common import u1
 
 ENTRIES = [(H.HYP, q) for q in (
@@ -20,6 +21,7 @@ def run(ctx):
     ctx.do(S.rule_ax1, [S.CORE, H.HYP], scope=ctx.scope(ENTRIES))
     ctx.do(SI.rule_x3)
     ctx.do(PR.rule_s2)
+    ctx.do(DT.rule_lk1, [H.HYP], scope=ctx.scope(ENTRIES))
     ctx.do(CA.rule_c2, "ProjectiveObject", scope=ctx.scope(ENTRIES))
     ctx.do(S.rule_sh5, only=S.SH5_C14)
     ctx.do(SI.rule_mean1, [SI.HYP], scope=ctx.scope(ENTRIES))
